@@ -165,7 +165,7 @@ def acordOp (ts : List String) : String :=
         match alg with
         | "azimuth" =>
           let r := (List.range reps).foldl (fun (as : AzAlg PID Float × St PID Float) _ =>
-            azExecute PointId.lt xN od as.1 as.2) (AzAlg.fresh, st0)
+            azExecute 64 PointId.lt xN od as.1 as.2) (AzAlg.fresh, st0)
           some ([], r.2, r.1.completed)
         | "hdiff" =>
           (List.range reps).foldlM (fun (as : HdAlg PID Float × St PID Float) _ =>
